@@ -756,21 +756,21 @@ func matchedString(m map[int]byte) string {
 // ---------------------------------------------------------------------------------------------
 // R4 comments
 
-func ruleC14R4(w *World, r *Report) {
-	const rule = "C14/R4"
-	r.rule(rule, "comment openers and terminators: '#', '--', '//' run to end of line (may end at end of input); '/*' must be closed by '*/'", 4)
+type commentForm struct {
+	opener, term string
+	mustEnd      bool
+}
+
+// commentOpeners: the (opener, terminator, must be closed) triples read off the case clauses of (*Lexer).skipComment:
+// each condition is a disjunction of `r == 'c'` [&& l.peekIs(1, 'd')], each body returns skipCommentUntil(…) with a
+// constant string (the terminator) and a constant bool among its arguments.
+func (w *World) commentOpeners() []commentForm {
 	fd := findFuncDecl(w.Mem, "Lexer", "skipComment")
 	if fd == nil {
-		r.errorf("(*Lexer).skipComment not found")
-		return
+		return nil
 	}
 	info := w.Mem.TypesInfo
-	type com struct {
-		opener, term string
-		mustEnd      bool
-	}
-	var got []com
-	// evaluate a condition into the set of byte sequences it accepts: r == 'c' [&& l.peekIs(1,'d')], joined by ||
+	var got []commentForm
 	var disj func(e ast.Expr) []string
 	disj = func(e ast.Expr) []string {
 		e = ast.Unparen(e)
@@ -810,12 +810,17 @@ func ruleC14R4(w *World, r *Report) {
 		for _, st := range cc.Body {
 			if ret, ok := st.(*ast.ReturnStmt); ok && len(ret.Results) == 1 {
 				if call, ok := ret.Results[0].(*ast.CallExpr); ok && len(call.Args) >= 2 {
-					if t, ok := constStr(info, call.Args[0]); ok {
-						term = t
-						if v := constVal(info, call.Args[1]); v != nil && v.Kind() == constant.Bool {
-							mustEnd = constant.BoolVal(v)
+					// the terminator is the constant string argument, "must be closed" the first constant bool
+					sawBool := false
+					for _, a := range call.Args {
+						if t, ok := constStr(info, a); ok && !found {
+							term = t
+							found = true
 						}
-						found = true
+						if v := constVal(info, a); v != nil && v.Kind() == constant.Bool && !sawBool {
+							mustEnd = constant.BoolVal(v)
+							sawBool = true
+						}
 					}
 				}
 			}
@@ -825,11 +830,24 @@ func ruleC14R4(w *World, r *Report) {
 		}
 		for _, e := range cc.List {
 			for _, op := range disj(e) {
-				got = append(got, com{op, term, mustEnd})
+				got = append(got, commentForm{op, term, mustEnd})
 			}
 		}
 		return true
 	})
+	return got
+}
+
+func ruleC14R4(w *World, r *Report) {
+	const rule = "C14/R4"
+	r.rule(rule, "comment openers and terminators: '#', '--', '//' run to end of line (may end at end of input); '/*' must be closed by '*/'", 4)
+	fd := findFuncDecl(w.Mem, "Lexer", "skipComment")
+	if fd == nil {
+		r.errorf("(*Lexer).skipComment not found")
+		return
+	}
+	type com = commentForm
+	got := w.commentOpeners()
 	want := map[string]com{"#": {"#", "\n", false}, "//": {"//", "\n", false}, "--": {"--", "\n", false}, "/*": {"/*", "*/", true}}
 	seen := map[string]bool{}
 	for _, g := range got {
